@@ -333,6 +333,16 @@ type fileSpec struct {
 	data []byte
 }
 
+func noise(n int) []byte {
+	b := make([]byte, n)
+	x := uint64(0x9e3779b97f4a7c15)
+	for i := range b {
+		x = splitmix(x)
+		b[i] = byte(x >> 32)
+	}
+	return b
+}
+
 func makeFiles() []fileSpec {
 	text := func(n int, tag string) []byte {
 		var b bytes.Buffer
@@ -346,6 +356,7 @@ func makeFiles() []fileSpec {
 		{"mid.txt", text(9000, "m")},
 		{"big.txt", text(30000, "b")},
 		{"d/c.html", text(14000, "<p>c</p>")},
+		{"rnd.bin", noise(20000)}, // incompressible: with Compress on, the entry of every cache kind keeps the original's handle
 	}
 }
 
@@ -370,6 +381,7 @@ type params struct {
 	slowPct   int
 	abortPct  int
 	fault     string // "" | nonseek (files without Seek/ReadAt) | seekfail (Seek fails at generated calls)
+	scenario  string // "" | kinds: one request per content coding, manager closed while all entries are idle, handler used afterwards
 	repeat    int    // > 0: each client asks for the same path this many times in a row (cache hits re-use pooled readers)
 }
 
@@ -378,7 +390,7 @@ func (p params) class() string {
 	if d > 5 {
 		d = 99
 	}
-	return fmt.Sprintf("%s|skip=%v|gz=%v|stop=%s|dur=%d|cl=%d|fault=%s|rep=%v", p.inner, p.skipCache, p.compress, p.stopMode, d, p.clients/4, p.fault, p.repeat > 0)
+	return fmt.Sprintf("%s|skip=%v|gz=%v|stop=%s|dur=%d|cl=%d|fault=%s|rep=%v|%s", p.inner, p.skipCache, p.compress, p.stopMode, d, p.clients/4, p.fault, p.repeat > 0, p.scenario)
 }
 
 func genParams(rnd *rand.Rand) params {
@@ -417,6 +429,16 @@ func genParams(rnd *rand.Rand) params {
 			p.cacheDur = time.Duration(2+rnd.Intn(4)) * time.Second // sequential repeats are cache hits for certain
 		}
 	}
+	if p.inner != "osfs" && rnd.Intn(100) < 16 {
+		// every cache kind owns handles at the moment the manager is closed
+		p.scenario, p.fault, p.repeat = "kinds", "", 0
+		p.skipCache, p.compress, p.clients = false, true, 1
+		p.cacheDur = 60 * time.Second // the entries are unexpired at the close unless the 4-8 requests take a minute
+		p.stopMode = "end"
+		if rnd.Intn(4) == 0 {
+			p.stopMode = "gc"
+		}
+	}
 	return p
 }
 
@@ -425,19 +447,21 @@ type violation struct {
 }
 
 type caseResult struct {
-	viol         []violation
-	inconclusive string
-	handles      int
-	bodies       int
-	bodiesSlow   int
-	aborted      int
-	fdPeak       int
-	failed5xx    int
-	unsuccessful int
-	seekFaults   int
-	fault        string
-	cs           *caseState
-	wrapper      *cfs
+	viol             []violation
+	inconclusive     string
+	handles          int
+	bodies           int
+	bodiesSlow       int
+	aborted          int
+	fdPeak           int
+	failed5xx        int
+	kindsIdleHandles int
+	scenario         string
+	unsuccessful     int
+	seekFaults       int
+	fault            string
+	cs               *caseState
+	wrapper          *cfs
 }
 
 // fdsUnder counts this process' descriptors that point below dir.
@@ -532,6 +556,9 @@ func runCase(r *mon.Run, i int, tmp string) (res caseResult) {
 			wrapper.seekSeed = uint64(rnd.Int63())
 		}
 	}
+	if p.scenario == "kinds" {
+		fsys.CompressBrotli, fsys.CompressZstd = true, true
+	}
 	res.wrapper = wrapper
 	if p.stopMode == "end" || p.stopMode == "mid" {
 		cs.stop = make(chan struct{})
@@ -572,33 +599,95 @@ func runCase(r *mon.Run, i int, tmp string) (res caseResult) {
 	var bodies, slowBodies, aborted, failed5xx, unsuccessful atomic.Int64
 	var fdPeak atomic.Int64
 
+	// serve starts ServeConn on the server end of a fresh in-memory connection and returns the client end.
+	serve := func(syncPipe bool) net.Conn {
+		var c, s net.Conn
+		if syncPipe {
+			c, s = net.Pipe() // unbuffered: the server's writes advance only as fast as the client reads
+		} else {
+			pc := fasthttputil.NewPipeConns()
+			c, s = pc.Conn1(), pc.Conn2()
+		}
+		srvWG.Add(1)
+		sv := srv
+		go func() {
+			defer srvWG.Done()
+			gid := curGoid()
+			byGoid.Store(gid, cs)
+			cs.ownGoids.Store(gid, true)
+			defer func() {
+				if pv := recover(); pv != nil {
+					cbad("panic", "panic in ServeConn: %v\n%s", pv, debug.Stack())
+					s.Close()
+				}
+			}()
+			sv.ServeConn(s)
+		}()
+		return c
+	}
+
+	// script sends the given (path, Accept-Encoding) requests one after the other on one connection and checks
+	// the bodies that can be checked (identity and gzip).
+	script := func(phase string, reqs [][2]string) {
+		c := serve(true)
+		defer c.Close()
+		br := bufio.NewReaderSize(c, 4096)
+		for _, rq := range reqs {
+			path, ae := rq[0], rq[1]
+			hdr := ""
+			if ae != "" {
+				hdr = "Accept-Encoding: " + ae + "\r\n"
+			}
+			if _, err := fmt.Fprintf(c, "GET %s HTTP/1.1\r\nHost: c25\r\n%s\r\n", path, hdr); err != nil {
+				cbad("connection-lost", "%s: write request: %v", phase, err)
+				return
+			}
+			resp, err := http.ReadResponse(br, &http.Request{Method: "GET"})
+			if err != nil {
+				cbad("response-unreadable", "%s: GET %s [%s]: %v", phase, path, ae, err)
+				return
+			}
+			body, err := io.ReadAll(resp.Body)
+			resp.Body.Close()
+			if err != nil || (resp.ContentLength >= 0 && int64(len(body)) != resp.ContentLength) {
+				cbad("body-shorter-than-content-length", "%s: GET %s [%s]: status %d, %d of %d body bytes: %v", phase, path, ae, resp.StatusCode, len(body), resp.ContentLength, err)
+				return
+			}
+			cs.requestDone()
+			bodies.Add(1)
+			f := fileByPath[path]
+			if resp.StatusCode != 200 {
+				cbad("unexpected-status", "%s: GET %s [%s]: status %d", phase, path, ae, resp.StatusCode)
+				continue
+			}
+			got := body
+			switch resp.Header.Get("Content-Encoding") {
+			case "":
+			case "gzip":
+				zr, err := gzip.NewReader(bytes.NewReader(body))
+				if err == nil {
+					got, err = io.ReadAll(zr)
+				}
+				if err != nil {
+					cbad("body-mismatch", "%s: GET %s: gzip body does not decode: %v", phase, path, err)
+					continue
+				}
+			default:
+				continue // br / zstd bodies are C24's business
+			}
+			if !bytes.Equal(got, f.data) {
+				cbad("body-mismatch", "%s: GET %s [%s]: 200 body of %d bytes differs from the file (%d bytes)", phase, path, ae, len(got), len(f.data))
+			}
+		}
+	}
+
 	client := func(ci int, crnd *rand.Rand) {
 		defer cliWG.Done()
 		var c net.Conn
 		var br *bufio.Reader
 		dial := func() {
-			var s net.Conn
-			if crnd.Intn(10) < 7 {
-				c, s = net.Pipe() // unbuffered: the server's writes advance only as fast as the client reads
-			} else {
-				pc := fasthttputil.NewPipeConns()
-				c, s = pc.Conn1(), pc.Conn2()
-			}
+			c = serve(crnd.Intn(10) < 7)
 			br = bufio.NewReaderSize(c, 1024)
-			srvWG.Add(1)
-			go func() {
-				defer srvWG.Done()
-				gid := curGoid()
-				byGoid.Store(gid, cs)
-				cs.ownGoids.Store(gid, true)
-				defer func() {
-					if pv := recover(); pv != nil {
-						cbad("panic", "panic in ServeConn: %v\n%s", pv, debug.Stack())
-						s.Close()
-					}
-				}()
-				srv.ServeConn(s)
-			}()
 		}
 		dial()
 		defer func() { c.Close() }()
@@ -753,7 +842,21 @@ func runCase(r *mon.Run, i int, tmp string) (res caseResult) {
 	}
 
 	t0 := time.Now()
+	kindsCodings := []string{"zstd", "br", "gzip", ""}
+	rnd.Shuffle(len(kindsCodings), func(a, b int) { kindsCodings[a], kindsCodings[b] = kindsCodings[b], kindsCodings[a] })
 	ok := mon.Watchdog(300*time.Second, func() {
+		if p.scenario == "kinds" {
+			var reqs [][2]string
+			for _, ae := range kindsCodings {
+				reqs = append(reqs, [2]string{"/rnd.bin", ae})
+				if rnd.Intn(2) == 0 {
+					reqs = append(reqs, [2]string{"/big.txt", ae})
+				}
+			}
+			script("before the close", reqs)
+			srvWG.Wait()
+			return
+		}
 		for ci := 0; ci < p.clients; ci++ {
 			cliWG.Add(1)
 			go client(ci, rand.New(rand.NewSource(rnd.Int63())))
@@ -767,6 +870,7 @@ func runCase(r *mon.Run, i int, tmp string) (res caseResult) {
 		return res
 	}
 	res.bodies, res.bodiesSlow, res.aborted, res.fdPeak = int(bodies.Load()), int(slowBodies.Load()), int(aborted.Load()), int(fdPeak.Load())
+	res.scenario = p.scenario
 	res.failed5xx, res.fault, res.unsuccessful = int(failed5xx.Load()), p.fault, int(unsuccessful.Load())
 	if wrapper != nil {
 		res.seekFaults = int(wrapper.seekFaults.Load())
@@ -778,6 +882,9 @@ func runCase(r *mon.Run, i int, tmp string) (res caseResult) {
 			fmt.Fprintf(os.Stderr, "case %d %+v: served in %v, total %v, ticks %d\n", i, p, tServed, time.Since(t0), cs.cleanerTicks.Load())
 		}
 	}()
+	if p.scenario == "kinds" && wrapper != nil {
+		res.kindsIdleHandles = int(wrapper.open.Load())
+	}
 	// --- stop the cache manager
 	switch p.stopMode {
 	case "end", "mid":
@@ -798,54 +905,83 @@ func runCase(r *mon.Run, i int, tmp string) (res caseResult) {
 		n, _ := fdsUnder(root)
 		return n
 	}
-	deadline := time.Now().Add(120 * time.Second)
-	for spin := 0; ; spin++ {
-		if p.stopMode == "gc" {
-			runtime.GC()
-		}
-		if openNow() == 0 {
-			break
-		}
-		if spin > 20 && spin%10 == 0 {
-			alive, releasing, dump := libraryGoroutines(creator)
-			if !alive && !releasing {
-				// The cleaner goroutine has exited (so the manager was closed and its releases are done), no
-				// finaliser or Release is running, all responses are released: nothing is left that could close
-				// the handle. Read the counter once more (it is written before those goroutines ended).
-				if n := openNow(); n > 0 {
-					if wrapper != nil {
-						names := map[string]int{}
-						for _, hd := range wrapper.snapshot() {
-							if hd.closes.Load() == 0 {
-								names[hd.name]++
+	leakKey := "handle-never-closed"
+	if p.scenario == "kinds" {
+		leakKey = "cache-entry-not-released-at-close" // every entry was idle when the manager was closed
+	}
+	baseline := 0 // handles already reported as leaked by an earlier quiescence of this case
+	quiesce := func() {
+		deadline := time.Now().Add(120 * time.Second)
+		for spin := 0; ; spin++ {
+			if p.stopMode == "gc" {
+				runtime.GC()
+			}
+			if openNow() <= baseline {
+				break
+			}
+			if spin > 20 && spin%10 == 0 {
+				alive, releasing, dump := libraryGoroutines(creator)
+				if !alive && !releasing {
+					// The cleaner goroutine has exited (so the manager was closed and its releases are done), no
+					// finaliser or Release is running, all responses are released: nothing is left that could close
+					// the handle. Read the counter once more (it is written before those goroutines ended).
+					if n := openNow(); n > baseline {
+						if wrapper != nil {
+							names := map[string]int{}
+							for _, hd := range wrapper.snapshot() {
+								if hd.closes.Load() == 0 {
+									names[hd.name]++
+								}
 							}
-						}
-						key := "handle-never-closed"
-						onlyEntryHandles := true
-						for _, hd := range wrapper.snapshot() {
-							if hd.closes.Load() == 0 && hd.stats.Load() == 0 {
-								onlyEntryHandles = false
+							key := leakKey
+							onlyEntryHandles := true
+							for _, hd := range wrapper.snapshot() {
+								if hd.closes.Load() == 0 && hd.stats.Load() == 0 {
+									onlyEntryHandles = false
+								}
 							}
+							if p.fault == "nonseek" && onlyEntryHandles {
+								// every reader handle was closed; what stays open are the cache entries' own handles (fsFile.f):
+								// their readers count never came back to zero
+								key = "nonseekable-file-readers-count-leak"
+							}
+							bad(key, "case %d (%+v): %d of %d handles are still open after every response was released, the cache manager was closed and its cleaner goroutine has exited: %v", i, p, n, len(wrapper.snapshot()), names)
+						} else {
+							_, names := fdsUnder(root)
+							bad("fd-never-closed", "case %d (%+v): %d descriptors below the served root are still open after every response was released and the cleaner goroutine has exited: %v", i, p, n, names)
 						}
-						if p.fault == "nonseek" && onlyEntryHandles {
-							// every reader handle was closed; what stays open are the cache entries' own handles (fsFile.f):
-							// their readers count never came back to zero
-							key = "nonseekable-file-readers-count-leak"
-						}
-						bad(key, "case %d (%+v): %d of %d handles are still open after every response was released, the cache manager was closed and its cleaner goroutine has exited: %v", i, p, n, len(wrapper.snapshot()), names)
-					} else {
-						_, names := fdsUnder(root)
-						bad("fd-never-closed", "case %d (%+v): %d descriptors below the served root are still open after every response was released and the cleaner goroutine has exited: %v", i, p, n, names)
 					}
+					break
 				}
-				break
+				if time.Now().After(deadline) {
+					res.inconclusive = fmt.Sprintf("case %d (%+v): %d handles still open after 120s while the cleaner goroutine is alive=%v releasing=%v\n%s", i, p, openNow(), alive, releasing, dump)
+					break
+				}
 			}
-			if time.Now().After(deadline) {
-				res.inconclusive = fmt.Sprintf("case %d (%+v): %d handles still open after 120s while the cleaner goroutine is alive=%v releasing=%v\n%s", i, p, openNow(), alive, releasing, dump)
-				break
-			}
+			time.Sleep(time.Duration(1+min(spin, 20)) * time.Millisecond)
 		}
-		time.Sleep(time.Duration(1+min(spin, 20)) * time.Millisecond)
+	}
+	quiesce()
+
+	if p.scenario == "kinds" && p.stopMode == "end" && res.inconclusive == "" {
+		// keep using the handler after its cache manager was closed: same path twice per coding, sequentially
+		leakKey = "handle-never-closed-after-manager-close"
+		baseline = openNow()
+		ok := mon.Watchdog(300*time.Second, func() {
+			var reqs [][2]string
+			for _, ae := range kindsCodings {
+				reqs = append(reqs, [2]string{"/rnd.bin", ae}, [2]string{"/rnd.bin", ae})
+			}
+			reqs = append(reqs, [2]string{"/big.txt", "gzip"}, [2]string{"/big.txt", ""})
+			script("after the close", reqs)
+			srvWG.Wait()
+		})
+		if !ok {
+			res.inconclusive = fmt.Sprintf("case %d (%+v): requests after the close did not finish within 300s\n%s", i, p, mon.Stacks())
+			return res
+		}
+		res.bodies = int(bodies.Load())
+		quiesce()
 	}
 
 	if wrapper != nil {
@@ -867,14 +1003,14 @@ func runCase(r *mon.Run, i int, tmp string) (res caseResult) {
 			}
 		}
 	}
-	r.Case(p.class(), cs.cleanerTicks.Load() > 0 || p.skipCache)
+	r.Case(p.class(), cs.cleanerTicks.Load() > 0 || p.skipCache || p.scenario != "")
 	return res
 }
 
 func TestC25(t *testing.T) {
 	r := mon.Start(t, "C25")
 	defer r.Finish()
-	r.Rule("case = one FS handler (counting fs.FS over fstest.MapFS or os.DirFS, or the plain os root with /proc/self/fd counting; CacheDuration 10-40 ms; SkipCache, Compress on/off) served by Server.ServeConn to 3-8 concurrent clients x 5-12 requests over net.Pipe / fasthttputil pipes for 4 files, a directory index and a missing path (GET/HEAD, Range, gzip, If-Modified-Since); 30-80% of the clients read some bodies in 3-10 chunks with 1-6 ms pauses (holding a reader across cleaner ticks), some abort mid-body; 30% of the wrapped cases use fault variants: files without Seek/ReadAt (like archive/zip), or Seek failing at generated call numbers (the rewind in bigFileReader.Close, the range seek), with each client asking for the same path 3-7 times in a row and, mostly, a cache duration of seconds so that the repeats are cache hits that re-use pooled readers; there a 500, a truncated response or a connection the server closes counts as an unsuccessful exchange (the client reconnects) and only complete bodies are compared; CleanStop is closed after a generated number of completed requests (mid traffic), at the end, or never (handler dropped, runtime cleanup closes the manager); a seeded hook yields/sleeps at fs.cache.got / fs.cache.set / fs.dec.unlocked and always delays fs.clean.collected. distinct = set of (inner fs, skip, compress, stop mode, duration bucket, client bucket, fault variant, repeats); non-trivial = the cleaner ran at least once during the case (or SkipCache)")
+	r.Rule("case = one FS handler (counting fs.FS over fstest.MapFS or os.DirFS, or the plain os root with /proc/self/fd counting; CacheDuration 10-40 ms; SkipCache, Compress on/off) served by Server.ServeConn to 3-8 concurrent clients x 5-12 requests over net.Pipe / fasthttputil pipes for 4 files, a directory index and a missing path (GET/HEAD, Range, gzip, If-Modified-Since); 30-80% of the clients read some bodies in 3-10 chunks with 1-6 ms pauses (holding a reader across cleaner ticks), some abort mid-body; 30% of the wrapped cases use fault variants: files without Seek/ReadAt (like archive/zip), or Seek failing at generated call numbers (the rewind in bigFileReader.Close, the range seek), with each client asking for the same path 3-7 times in a row and, mostly, a cache duration of seconds so that the repeats are cache hits that re-use pooled readers; there a 500, a truncated response or a connection the server closes counts as an unsuccessful exchange (the client reconnects) and only complete bodies are compared; 16% of the wrapped cases are the all-cache-kinds scenario (Compress+br+zstd, an incompressible file so that the plain, gzip, br and zstd entries each own a handle, one request per coding, the manager closed while every entry is idle, then the same path twice per coding on the closed manager); CleanStop is closed after a generated number of completed requests (mid traffic), at the end, or never (handler dropped, runtime cleanup closes the manager); a seeded hook yields/sleeps at fs.cache.got / fs.cache.set / fs.dec.unlocked and always delays fs.clean.collected. distinct = set of (inner fs, skip, compress, stop mode, duration bucket, client bucket, fault variant, repeats); non-trivial = the cleaner ran at least once during the case (or SkipCache, or the all-cache-kinds scenario)")
 	r.Assume("all interleavings is replaced by the interleavings actually produced (signatures counted in the evidence); a handle is judged never closed only after every ServeConn returned, the cache manager was closed and a goroutine dump shows neither the case's cleaner goroutine nor any Release/Close in progress; otherwise the case is inconclusive")
 	r.Assume("closing CleanStop while requests are in flight is exercised although the field comment discourages it: the property statement quantifies over it")
 	tmp := filepath.Join(os.TempDir(), fmt.Sprintf("c25-%d", os.Getpid()))
@@ -908,6 +1044,10 @@ func TestC25(t *testing.T) {
 		r.Event("exchanges_unsuccessful_under_fault(connection closed or truncated; client reconnected)", res.unsuccessful)
 		if res.fault != "" {
 			r.Event("cases_fault_"+res.fault, 1)
+		}
+		if res.scenario == "kinds" {
+			r.Event("cases_all_cache_kinds_idle_at_close", 1)
+			r.Event("handles_owned_by_idle_entries_at_close", res.kindsIdleHandles)
 		}
 		r.Event("bodies_checked", res.bodies)
 		r.Event("bodies_read_slowly", res.bodiesSlow)
@@ -964,15 +1104,20 @@ func TestC25(t *testing.T) {
 	r.Set("hook_point_bigrams(g=cache.got s=cache.set c=clean.collected d=dec.unlocked)", bg)
 	r.Set("hook_hits_unattributed", unattributed.Load())
 	if !r.Replaying() {
-		r.Require("handles_opened", n*20)
-		r.Require("bodies_checked", n*20)
-		r.Require("reach_fs.cache.got", n)
-		r.Require("reach_fs.cache.set", n)
+		// Bounds: either fixed by the generated parameters, or at most a quarter of the smallest count seen over
+		// seeds 1 2 3 7 42 at load averages 30-110 (quick, n=128: handles 3988, bodies 4597, cache.got 4095,
+		// cache.set 2029, dec.unlocked 3455, clean.collected 13024, held-across-tick 503, seek faults 70).
+		r.Require("handles_opened", n*6)
+		r.Require("bodies_checked", n*8)
+		r.Require("reach_fs.cache.got", n*7)
+		r.Require("reach_fs.cache.set", n*3)
 		r.Require("reach_fs.clean.collected", n/2)
-		r.Require("reach_fs.dec.unlocked", n)
+		r.Require("reach_fs.dec.unlocked", n*6)
 		r.Require("bodies_held_across_cleaner_tick", n/4)
-		r.Require("cases_fault_nonseek", n/20)
-		r.Require("cases_fault_seekfail", n/20)
-		r.Require("seek_faults_injected", n)
+		r.Require("cases_fault_nonseek", n/32)                 // by construction ~12% of the cases
+		r.Require("cases_fault_seekfail", n/32)                // by construction ~12% of the cases
+		r.Require("cases_all_cache_kinds_idle_at_close", n/32) // by construction ~13% of the cases
+		r.Require("handles_owned_by_idle_entries_at_close", n/8)
+		r.Require("seek_faults_injected", n/8)
 	}
 }
